@@ -165,7 +165,7 @@ impl Kit {
 		self.builder.as_ref().unwrap()
 	}
 
-	fn register_out(&mut self, commit: Commitment, value: u64, key_id: Identifier, coinbase: bool) -> usize {
+	pub fn register_out(&mut self, commit: Commitment, value: u64, key_id: Identifier, coinbase: bool) -> usize {
 		if let Some(id) = self.by_commit.get(&commit) {
 			return *id;
 		}
@@ -297,6 +297,21 @@ impl Kit {
 		Ok(b)
 	}
 
+	/// A block on an arbitrary previous header, neither processed nor given roots by the node that
+	/// builds the trees: for states assembled directly inside a txhashset extension (the way a
+	/// state archive or PIBD delivers them, with no block validation on the way). The reward
+	/// claims the fees of `txs`; the coinbase output is registered.
+	pub fn raw_block(&mut self, prev: &BlockHeader, txs: &[Transaction]) -> Result<Block, String> {
+		let key_id = self.fresh_key();
+		let fees: u64 = txs.iter().map(|tx| tx.fee()).sum();
+		let rw = reward::output(&self.kc, &ProofBuilder::new(&self.kc), &key_id, fees, false).map_err(|e| format!("{:?}", e))?;
+		let cb_commit = rw.0.commitment();
+		let mut b = Block::new(prev, txs, Difficulty::from_num(1), rw).map_err(|e| format!("{:?}", e))?;
+		b.header.timestamp = prev.timestamp + Duration::seconds(60);
+		self.register_out(cb_commit, consensus::reward(fees), key_id, true);
+		Ok(b)
+	}
+
 	/// Record a block (valid or not) so it gets an id and an abstract description.
 	fn plain_reward(&self, rw: (Output, TxKernel), key_id: &Identifier, value: u64) -> Result<(Output, TxKernel), String> {
 		let (mut out, mut ker) = rw;
@@ -380,8 +395,10 @@ impl Kit {
 			})
 			.collect();
 		let kers: Vec<String> = b.kernels().iter().map(Self::ker_desc).collect();
+		// inputs in features-and-commit form: what each input CLAIMS about the output it spends
+		let inf = self.claims_desc(&b.body.inputs);
 		format!(
-			"chain blk b{} parent={} h={} work={} ver={} ts={} ins=[{}] outs=[{}] kers=[{}] tags=[{}]",
+			"chain blk b{} parent={} h={} work={} ver={} ts={} ins=[{}] outs=[{}] kers=[{}]{} tags=[{}]",
 			id,
 			r.parent.map(|p| format!("b{}", p)).unwrap_or("-".to_string()),
 			b.header.height,
@@ -391,6 +408,7 @@ impl Kit {
 			ins.join(","),
 			outs.join(","),
 			kers.join(","),
+			inf,
 			r.tags.join(",")
 		)
 	}
@@ -428,6 +446,13 @@ impl Subject {
 			Ok(Some(_)) => "ok:head".to_string(),
 			Ok(None) => "ok:fork".to_string(),
 			Err(e) => format!("err:{}", error_class(&e)),
+		}
+	}
+	/// the block as protocol version 2 / JSON carries it: every input with the (right) features of its output
+	pub fn deliver_block_features(&self, kit: &Kit, b: &Block) -> String {
+		match kit.features_form(b, None) {
+			Some(w) => self.deliver_block(&w),
+			None => self.deliver_block(b),
 		}
 	}
 	/// the block as a peer speaking the current protocol version sends it: inputs as bare commitments
@@ -489,6 +514,187 @@ impl Subject {
 			crate::hex(&r.rproof_root.as_bytes()[..8]),
 			crate::hex(&r.kernel_root.as_bytes()[..8])
 		)
+	}
+}
+
+impl Subject {
+	/// C01: the running sums stored for the head block against the sums recomputed from the full
+	/// state (`Extension::validate_kernel_sums` over every unspent output and every kernel)
+	pub fn sums_check(&self) -> Result<(), String> {
+		use grin_chain::txhashset;
+		let chain = self.c();
+		let head = chain.head_header().map_err(|e| format!("head_header: {}", error_class(&e)))?;
+		if head.height == 0 {
+			return Ok(());
+		}
+		let stored = chain.get_block_sums(&head.hash()).map_err(|e| format!("no stored sums for the head: {}", error_class(&e)))?;
+		let genesis = chain.genesis();
+		let hp = chain.header_pmmr();
+		let ts = chain.txhashset();
+		let mut header_pmmr = hp.write();
+		let mut txhashset = ts.write();
+		let (u, k) = txhashset::extending_readonly(&mut header_pmmr, &mut txhashset, |ext, _batch| ext.extension.validate_kernel_sums(&genesis, &head))
+			.map_err(|e| format!("recomputing the sums from the full state failed: {:?}", e))?;
+		if stored.utxo_sum != u || stored.kernel_sum != k {
+			return Err(format!(
+				"stored sums differ from the recomputed ones at height {}: utxo_sum equal={} kernel_sum equal={}",
+				head.height,
+				stored.utxo_sum == u,
+				stored.kernel_sum == k
+			));
+		}
+		Ok(())
+	}
+
+	/// the unspent output `o` read back from the txhashset files (identifier and range proof) must be
+	/// the output the block carried
+	pub fn readback(&self, kit: &Kit, oid: usize, created: &Output) -> Result<(), String> {
+		let c = kit.outs[oid].commit;
+		match self.c().get_unspent(c) {
+			Ok(Some((_, cp))) => match self.c().get_unspent_output_at(cp.pos - 1) {
+				Ok(o) => {
+					if o.commitment() != created.commitment() || o.features() != created.features() {
+						Err(format!("o{}: another output is read back at its position {}", oid, cp.pos))
+					} else if o.proof() != created.proof() {
+						Err(format!("o{}: its range proof read back from the data file differs", oid))
+					} else {
+						Ok(())
+					}
+				}
+				Err(e) => Err(format!("o{}: data not readable at position {}: {}", oid, cp.pos, error_class(&e))),
+			},
+			Ok(None) => Err(format!("o{}: not reported unspent", oid)),
+			Err(e) => Err(format!("o{}: get_unspent: {}", oid, error_class(&e))),
+		}
+	}
+
+	/// every file under the txhashset directory with its content
+	pub fn txhashset_files(&self) -> std::collections::BTreeMap<String, Vec<u8>> {
+		fn walk(dir: &std::path::Path, base: &std::path::Path, m: &mut std::collections::BTreeMap<String, Vec<u8>>) {
+			if let Ok(rd) = std::fs::read_dir(dir) {
+				for e in rd.flatten() {
+					let p = e.path();
+					if p.is_dir() {
+						walk(&p, base, m);
+					} else {
+						let name = p.strip_prefix(base).map(|x| x.to_string_lossy().to_string()).unwrap_or_default();
+						m.insert(name, std::fs::read(&p).unwrap_or_default());
+					}
+				}
+			}
+		}
+		let base = std::path::Path::new(&self.dir).join("txhashset");
+		let mut m = std::collections::BTreeMap::new();
+		walk(&base, &base, &mut m);
+		m
+	}
+
+	/// what the database shows of the best chain: head, body tail, for every output ever built its
+	/// indexed position, for every block of `best` its stored sums, spent index and input bitmap
+	pub fn db_view(&self, kit: &Kit, best: &[usize]) -> Vec<String> {
+		let chain = self.c();
+		let mut v = vec![];
+		v.push(format!("head={:?}", chain.head().map(|t| (t.height, t.last_block_h)).ok()));
+		v.push(format!("tail={:?}", chain.tail().map(|t| (t.height, t.last_block_h)).ok()));
+		for o in &kit.outs {
+			let pos = chain.store().get_output_pos_height(&o.commit).ok().flatten().map(|cp| (cp.pos, cp.height));
+			v.push(format!("pos o{}={:?}", o.id, pos));
+		}
+		let store = chain.store();
+		if let Ok(batch) = store.batch() {
+			for b in best {
+				let h = kit.blks[*b].block.hash();
+				let sums = chain.get_block_sums(&h).ok().map(|s| (s.utxo_sum, s.kernel_sum));
+				let spent = batch.get_spent_index(&h).ok().map(|l| l.iter().map(|cp| (cp.pos, cp.height)).collect::<Vec<_>>());
+				let bm = batch.get_block_input_bitmap(&h).ok().map(|b| b.to_vec());
+				v.push(format!("blk b{} sums={:?} spent={:?} inputs={:?}", b, sums, spent, bm));
+			}
+		}
+		v
+	}
+}
+
+/// first difference between two snapshots of the txhashset files: (file, description)
+pub fn files_diff(a: &std::collections::BTreeMap<String, Vec<u8>>, b: &std::collections::BTreeMap<String, Vec<u8>>) -> Option<String> {
+	for (name, x) in a {
+		match b.get(name) {
+			None => return Some(format!("{} disappeared", name)),
+			Some(y) => {
+				if x != y {
+					let off = x.iter().zip(y.iter()).position(|(p, q)| p != q).unwrap_or(x.len().min(y.len()));
+					return Some(format!("{} changed (length {} -> {}, first difference at byte {})", name, x.len(), y.len(), off));
+				}
+			}
+		}
+	}
+	for name in b.keys() {
+		if !a.contains_key(name) {
+			return Some(format!("{} appeared", name));
+		}
+	}
+	None
+}
+
+impl Kit {
+	/// the block with its inputs in the features-and-commit form (protocol version 2, JSON): every
+	/// input claims the features its output was created with, except - `lie` - the input naming that
+	/// commitment (`Some(None)`: the first input), which claims the opposite (Plain <-> Coinbase).
+	/// Inputs stay sorted; the block hash (header only) does not change. None when there is
+	/// nothing to lie about.
+	pub fn features_form(&self, b: &Block, lie: Option<Option<Commitment>>) -> Option<Block> {
+		let v = self.inputs_features_form(&b.inputs(), lie)?;
+		let mut w = b.clone();
+		w.body.inputs = v;
+		Some(w)
+	}
+
+	/// the same for a transaction
+	pub fn tx_features_form(&self, tx: &Transaction, lie: Option<Option<Commitment>>) -> Option<Transaction> {
+		let v = self.inputs_features_form(&tx.inputs(), lie)?;
+		let mut w = tx.clone();
+		w.body.inputs = v;
+		Some(w)
+	}
+
+	pub fn inputs_features_form(&self, inputs: &grin_core::core::Inputs, lie: Option<Option<Commitment>>) -> Option<grin_core::core::Inputs> {
+		use grin_core::core::{CommitWrapper, Input, Inputs};
+		let commits: Vec<CommitWrapper> = inputs.into();
+		let mut v: Vec<Input> = vec![];
+		let mut lied = false;
+		for c in commits {
+			let c = c.commitment();
+			let cb = self.by_commit.get(&c).map(|i| self.outs[*i].coinbase).unwrap_or(false);
+			let mut f = if cb { OutputFeatures::Coinbase } else { OutputFeatures::Plain };
+			if let Some(which) = lie {
+				if which.map(|w| w == c).unwrap_or(!lied) {
+					f = if cb { OutputFeatures::Plain } else { OutputFeatures::Coinbase };
+					lied = true;
+				}
+			}
+			v.push(Input::new(f, c));
+		}
+		if lie.is_some() && !lied {
+			return None;
+		}
+		v.sort_unstable();
+		Some(Inputs::FeaturesAndCommit(v))
+	}
+
+	/// ` inf=[o3:pl,o7:cb]` for inputs in features-and-commit form (what each input claims), else ""
+	pub fn claims_desc(&self, inputs: &grin_core::core::Inputs) -> String {
+		match inputs {
+			grin_core::core::Inputs::FeaturesAndCommit(v) if !v.is_empty() => {
+				let l: Vec<String> = v
+					.iter()
+					.map(|i| {
+						let oid = self.by_commit.get(&i.commit).map(|x| format!("o{}", x)).unwrap_or("o?".to_string());
+						format!("{}:{}", oid, if i.features == OutputFeatures::Coinbase { "cb" } else { "pl" })
+					})
+					.collect();
+				format!(" inf=[{}]", l.join(","))
+			}
+			_ => String::new(),
+		}
 	}
 }
 
